@@ -330,6 +330,15 @@ func c13RunScenarioRT(sc rtScenario, observe time.Duration) (problems []string, 
 			h.StopHunt(packet.Addr{MAC: hw(mac), IP: c13IP(c.T % 4)})
 		case "close":
 			h.Close()
+		case "claim": // another station (never hunted) announces the router's address as its own: the session re-binds the address
+			f := ref.Eth(ref.MAC{0xff, 0xff, 0xff, 0xff, 0xff, 0xff}, w.Clients[3], 0x0806, ref.ARP(ref.ARPPkt{HType: 1, PType: 0x0800, HLen: 6, PLen: 4, Op: 1, SHA: w.Clients[3], SPA: w.RouterIP.As4(), TPA: w.RouterIP.As4()}))
+			buf := make([]byte, packet.EthMaxSize)
+			if fr, err := s.Parse(buf[:copy(buf, f)]); err == nil && fr.PayloadID == packet.PayloadARP {
+				h.ProcessPacket(fr)
+			}
+			for len(s.C) > 0 {
+				<-s.C
+			}
 		}
 		log = append(log, rtEvent{time.Since(t0), c.K, c.T % 4})
 	}
@@ -524,7 +533,7 @@ func genRTBatch(t *rapid.T, nmin, nmax int, withClose bool) rtBatch {
 		var sc rtScenario
 		ntargets := rapid.IntRange(1, 3).Draw(t, "ntargets")
 		for k := rapid.IntRange(2, 8).Draw(t, "ncalls"); k > 0; k-- {
-			kind := rapid.SampledFrom([]string{"start", "start", "stop", "stop"}).Draw(t, "k")
+			kind := rapid.SampledFrom([]string{"start", "start", "start", "stop", "stop", "stop", "claim"}).Draw(t, "k")
 			sc.Calls = append(sc.Calls, rtCall{At: rapid.IntRange(0, 8000).Draw(t, "at"), K: kind, T: rapid.IntRange(0, ntargets-1).Draw(t, "t"), Alt: kind == "start" && rapid.IntRange(0, 2).Draw(t, "alt") == 0})
 		}
 		if withClose && rapid.IntRange(0, 3).Draw(t, "close") == 0 {
